@@ -58,6 +58,26 @@ func (x *Exec) chSetInt(st *State, kind string, ch Term, v Term) {
 
 var nullRef = Term{S: "null", Sort: "Ref"}
 
+// chanStateMap: the ghost map behind sent(c), rcvd(c), total(c), closed(c), own(c),
+// drained(c), slots(c), cap(c), shares(c), myshare(c) in contracts.
+func (x *Exec) chanStateMap(st *State, fn string, ch Term) (string, string, bool) {
+	switch fn {
+	case "sent", "rcvd", "total":
+		if x.chanElemSort(ch.Ty) == "" {
+			return "", "", false
+		}
+		name, _, tr := x.chTrace(st, fn, ch)
+		return name, tr, true
+	case "closed", "own", "drained":
+		x.heapMap(st, "C_"+fn, "Bool")
+		return "C_" + fn, "Bool", true
+	case "slots", "cap", "shares", "myshare":
+		x.heapMap(st, "C_"+fn, "Int")
+		return "C_" + fn, "Int", true
+	}
+	return "", "", false
+}
+
 func (x *Exec) chanMake(st *State, t types.Type, capT Term, n ast.Node) Term {
 	c := x.alloc(st, "chan", t)
 	x.oblige(st, "safety", "make-chan-cap", tApp("Bool", ">=", capT, tInt(0)), n, "channel capacity is not negative")
@@ -191,44 +211,94 @@ func (x *Exec) selectStmt(st *State, fr *Frame, s *ast.SelectStmt, k func(*State
 		ch   Term
 		val  Term
 	}
-	var arms []arm
-	cur := st
-	hasCancel, hasDefault := false, false
-	// operands are evaluated first, in source order
-	for _, c := range s.Body.List {
-		cc := c.(*ast.CommClause)
+	clauses := s.Body.List
+	// operands are evaluated first, in source order; an operand may fork (a local closure
+	// that picks the channel), so the evaluation is in continuation-passing style
+	var evalFrom func(i int, cur *State, arms []arm)
+	proceed := func(cur *State, arms []arm) {
+		hasCancel, hasDefault := false, false
+		for _, a := range arms {
+			if a.kind == "cancel" {
+				hasCancel = true
+			}
+			if a.kind == "default" {
+				hasDefault = true
+			}
+		}
+		// progress: a select that can block must be releasable by cancellation, or every
+		// arm must be a receive from an input (released by the environment closing it)
+		if !hasDefault && !hasCancel {
+			allRecv := true
+			for _, a := range arms {
+				if a.kind != "recv" && a.kind != "timer" {
+					allRecv = false
+				}
+			}
+			x.oblige(cur, "progress", "select-releasable", boolT(allRecv), s, "a blocking select has a cancel arm, a default, or only receives")
+		}
+		bfr := *fr
+		bfr.brk = k
+		for _, a := range arms {
+			b := cur.clone()
+			if hasCancel && a.kind != "cancel" {
+				b.ghosts["obsCancel"] = tTrue
+			}
+			switch a.kind {
+			case "default":
+			case "cancel":
+				b.ghosts["sawCancel"] = tTrue
+			case "timer":
+				b.ghosts["sleeps"] = tApp("Int", "+", x.ghostInt(cur, "sleeps"), tInt(1))
+			case "send":
+				b.assume(tNot(tEq(a.ch, nullRef))) // a nil channel is never ready
+				x.chanSend(b, fr, a.ch, a.val, a.cc, true)
+			case "recv":
+				b.assume(tNot(tEq(a.ch, nullRef)))
+				var lhs []ast.Expr
+				if as, ok := a.cc.Comm.(*ast.AssignStmt); ok {
+					lhs = as.Lhs
+				}
+				cc := a.cc
+				x.chanRecv(b, fr, a.ch, a.cc, func(s2 *State, v Term, okT Term) {
+					if len(lhs) > 0 {
+						x.store(s2, fr, lhs[0], v)
+					}
+					if len(lhs) > 1 {
+						x.store(s2, fr, lhs[1], okT)
+					}
+					x.block(s2, &bfr, cc.Body, k)
+				})
+				continue
+			}
+			x.block(b, &bfr, a.cc.Body, k)
+		}
+	}
+	evalFrom = func(i int, cur *State, arms []arm) {
+		if i == len(clauses) {
+			proceed(cur, arms)
+			return
+		}
+		cc := clauses[i].(*ast.CommClause)
 		a := arm{cc: cc}
+		next := func(cur *State, a arm) {
+			evalFrom(i+1, cur, append(append([]arm(nil), arms...), a))
+		}
 		switch cm := cc.Comm.(type) {
 		case nil:
 			a.kind = "default"
-			hasDefault = true
+			next(cur, a)
 		case *ast.SendStmt:
 			a.kind = "send"
-			var chT, vT Term
-			n := 0
-			x.exprK(cur, fr, cm.Chan, func(s2 *State, t Term) {
-				n++
-				cur = s2
-				chT = t
+			x.exprK(cur, fr, cm.Chan, func(s2 *State, chT Term) {
+				if chT.Ty == nil {
+					chT.Ty = x.info.TypeOf(cm.Chan)
+				}
+				x.exprK(s2, fr, cm.Value, func(s3 *State, vT Term) {
+					b := a
+					b.ch, b.val = chT, vT
+					next(s3, b)
+				})
 			})
-			if n != 1 {
-				x.unsupported(cm, "forking channel operand in select")
-				return
-			}
-			n = 0
-			x.exprK(cur, fr, cm.Value, func(s2 *State, t Term) {
-				n++
-				cur = s2
-				vT = t
-			})
-			if n != 1 {
-				x.unsupported(cm, "forking value operand in select")
-				return
-			}
-			if chT.Ty == nil {
-				chT.Ty = x.info.TypeOf(cm.Chan)
-			}
-			a.ch, a.val = chT, vT
 		case *ast.ExprStmt, *ast.AssignStmt:
 			var rx ast.Expr
 			if es, ok := cm.(*ast.ExprStmt); ok {
@@ -239,65 +309,24 @@ func (x *Exec) selectStmt(st *State, fr *Frame, s *ast.SelectStmt, k func(*State
 			switch {
 			case x.isCtxDone(rx):
 				a.kind = "cancel"
-				hasCancel = true
+				next(cur, a)
 			case x.isTimeAfter(rx):
 				a.kind = "timer"
+				next(cur, a)
 			default:
 				a.kind = "recv"
-				a.ch = x.expr(cur, fr, rx)
-				if a.ch.Ty == nil {
-					a.ch.Ty = x.info.TypeOf(rx)
-				}
+				x.exprK(cur, fr, rx, func(s2 *State, chT Term) {
+					if chT.Ty == nil {
+						chT.Ty = x.info.TypeOf(rx)
+					}
+					b := a
+					b.ch = chT
+					next(s2, b)
+				})
 			}
 		}
-		arms = append(arms, a)
 	}
-	// progress: a select that can block must be releasable by cancellation, or every
-	// arm must be a receive from an input (released by the environment closing it)
-	if !hasDefault && !hasCancel {
-		allRecv := true
-		for _, a := range arms {
-			if a.kind != "recv" && a.kind != "timer" {
-				allRecv = false
-			}
-		}
-		x.oblige(cur, "progress", "select-releasable", boolT(allRecv), s, "a blocking select has a cancel arm, a default, or only receives")
-	}
-	bfr := *fr
-	bfr.brk = k
-	for _, a := range arms {
-		b := cur.clone()
-		switch a.kind {
-		case "default":
-		case "cancel":
-			b.ghosts["sawCancel"] = tTrue
-		case "timer":
-			b.ghosts["sleeps"] = tApp("Int", "+", x.ghostInt(cur, "sleeps"), tInt(1))
-		case "send":
-			b.assume(tNot(tEq(a.ch, nullRef))) // a nil channel is never ready
-			x.chanSend(b, fr, a.ch, a.val, a.cc, true)
-		case "recv":
-			b.assume(tNot(tEq(a.ch, nullRef)))
-			var lhs []ast.Expr
-			define := false
-			if as, ok := a.cc.Comm.(*ast.AssignStmt); ok {
-				lhs = as.Lhs
-				define = as.Tok == token.DEFINE
-			}
-			_ = define
-			x.chanRecv(b, fr, a.ch, a.cc, func(s2 *State, v Term, okT Term) {
-				if len(lhs) > 0 {
-					x.store(s2, fr, lhs[0], v)
-				}
-				if len(lhs) > 1 {
-					x.store(s2, fr, lhs[1], okT)
-				}
-				x.block(s2, &bfr, a.cc.Body, k)
-			})
-			continue
-		}
-		x.block(b, &bfr, a.cc.Body, k)
-	}
+	evalFrom(0, st, nil)
 }
 
 func boolT(b bool) Term {
